@@ -15,7 +15,11 @@ import (
 	"strconv"
 	"strings"
 
+	"github.com/pingcap/kvproto/pkg/errorpb"
+	"github.com/pingcap/kvproto/pkg/kvrpcpb"
+	"github.com/pingcap/kvproto/pkg/metapb"
 	"github.com/tikv/client-go/v2/internal/apicodec"
+	"github.com/tikv/client-go/v2/tikvrpc"
 	"github.com/tikv/client-go/v2/util/codec"
 )
 
@@ -160,6 +164,65 @@ func runKeyOp(op string, k *kcodec, a []string) string {
 				return "err"
 			}
 			return "ok " + hxList(r)
+		case "fdk":
+			pfx, rest, err := apicodec.DecodeKey(cp(unhx(a[0])), kvrpcpb.APIVersion_V2)
+			if err != nil {
+				return "err"
+			}
+			return "ok " + hx(pfx) + " " + hx(rest)
+		case "dre":
+			re := &errorpb.Error{Message: "verif"}
+			if a[0] != "~" {
+				p := strings.Split(a[0], ":")
+				re.KeyNotInRegion = &errorpb.KeyNotInRegion{Key: cp(unhx(p[0])), StartKey: cp(unhx(p[1])), EndKey: cp(unhx(p[2]))}
+			}
+			if a[1] != "~" {
+				re.EpochNotMatch = &errorpb.EpochNotMatch{}
+				if a[1] != "()" {
+					for _, r := range strings.Split(a[1], ",") {
+						p := strings.Split(r, ":")
+						re.EpochNotMatch.CurrentRegions = append(re.EpochNotMatch.CurrentRegions, &metapb.Region{StartKey: cp(unhx(p[0])), EndKey: cp(unhx(p[1]))})
+					}
+				}
+			}
+			if a[2] != "~" {
+				re.BucketVersionNotMatch = &errorpb.BucketVersionNotMatch{}
+				if a[2] != "()" {
+					for _, b := range strings.Split(a[2], ",") {
+						re.BucketVersionNotMatch.Keys = append(re.BucketVersionNotMatch.Keys, cp(unhx(b)))
+					}
+				}
+			}
+			enc, err := k.c.EncodeRequest(tikvrpc.NewRequest(tikvrpc.CmdGet, &kvrpcpb.GetRequest{Key: []byte("k")}))
+			if err != nil {
+				return "encode-error"
+			}
+			resp, err := k.c.DecodeResponse(enc, &tikvrpc.Response{Resp: &kvrpcpb.GetResponse{RegionError: re}})
+			if err != nil {
+				return "err"
+			}
+			out := resp.Resp.(*kvrpcpb.GetResponse).RegionError
+			kn, ep, bv := "~", "~", "~"
+			if x := out.KeyNotInRegion; x != nil {
+				kn = hx(x.Key) + ":" + hx(x.StartKey) + ":" + hx(x.EndKey)
+			}
+			if x := out.EpochNotMatch; x != nil {
+				var ps []string
+				for _, r := range x.CurrentRegions {
+					ps = append(ps, hx(r.StartKey)+":"+hx(r.EndKey))
+				}
+				ep = "()"
+				if len(ps) > 0 {
+					ep = strings.Join(ps, ",")
+				}
+			}
+			if x := out.BucketVersionNotMatch; x != nil {
+				bv = "()"
+				if len(x.Keys) > 0 {
+					bv = hxList(x.Keys)
+				}
+			}
+			return "ok " + kn + " " + ep + " " + bv
 		case "pki":
 			id, err := apicodec.ParseKeyspaceID(cp(unhx(a[0])))
 			if err != nil {
@@ -417,6 +480,76 @@ func genKeys(seed int64, tier string) {
 				want := clipSpec(k, s, e)
 				prop("region_clip", got == want && got2 == want, clipClass(k, s), k.mode, fmt.Sprintf("%x", k.id), hx(s), hx(e), "got="+got, "want="+want)
 			}
+		}
+		// region errors through DecodeResponse: KeyNotInRegion / EpochNotMatch / BucketVersionNotMatch built from the
+		// boundary strings (sorted chains; foreign, short and malformed bounds included); and the free DecodeKey
+		nre := 40
+		if tier == "thorough" {
+			nre = 300
+		}
+		srt := append([][]byte{}, phys...)
+		sort.Slice(srt, func(i, j int) bool { return bytes.Compare(srt[i], srt[j]) < 0 })
+		chain := func(n int) [][]byte {
+			var c [][]byte
+			for j := rng.Intn(len(srt)); j < len(srt) && len(c) < n; j += 1 + rng.Intn(5) {
+				c = append(c, srt[j])
+			}
+			return c
+		}
+		mal := func(b []byte) []byte {
+			e := memEnc(b)
+			if len(e) > 0 && rng.Intn(12) == 0 {
+				e = e[:len(e)-1]
+			}
+			return e
+		}
+		for i := 0; i < nre; i++ {
+			kn, ep, bv := "~", "~", "~"
+			if rng.Intn(3) > 0 {
+				c := chain(2)
+				if rng.Intn(2) == 0 {
+					// a region overlapping the keyspace with the key inside
+					c = [][]byte{cat(k.pfx, string(lk[rng.Intn(len(lk))])), cp(k.end)}
+					if rng.Intn(2) == 0 {
+						c[1] = nil
+					}
+				}
+				if len(c) == 2 {
+					key := append(cp(c[0]), byte(rng.Intn(3)))
+					if rng.Intn(4) == 0 {
+						key = phys[rng.Intn(len(phys))]
+					}
+					kn = hx(key) + ":" + hx(mal(c[0])) + ":" + hx(mal(c[1]))
+				}
+			}
+			if rng.Intn(3) > 0 {
+				c := chain(2 + rng.Intn(5))
+				var ps []string
+				for j := 0; j+1 < len(c); j++ {
+					ps = append(ps, hx(mal(c[j]))+":"+hx(mal(c[j+1])))
+				}
+				if rng.Intn(3) == 0 && len(c) > 0 {
+					ps = append(ps, hx(mal(c[len(c)-1]))+":-")
+				}
+				ep = "()"
+				if len(ps) > 0 {
+					ep = strings.Join(ps, ",")
+				}
+			}
+			if rng.Intn(3) == 0 {
+				c := chain(2 + rng.Intn(4))
+				var ps []string
+				for _, b := range c {
+					ps = append(ps, hx(mal(b)))
+				}
+				if len(ps) > 0 {
+					bv = strings.Join(ps, ",")
+				}
+			}
+			emit("dre", k, kn, ep, bv)
+		}
+		for _, p := range phys {
+			emit("fdk", k, hx(p))
 		}
 		// ParseKeyspaceID: every image parses to the id; arbitrary strings parse iff >= 4 bytes starting with r / x
 		for i := 0; i < 8; i++ {
